@@ -301,7 +301,7 @@ def run(modules, seed=0, n=12, repo=None):
                     kw = {p: copy.deepcopy(case[p]) for p in ps}
                     fuel = "200 " if unit in ("reverse_dfs_recursive", "reverse_dfs") else ""
                     add("CR.Ex.Rdfs", unit, cfg, vals, lambda u=unit, kw=kw: getattr(rd, u)(**kw), prefix_args="(A := Unit) " * 0 + fuel)
-    if any(m in modules for m in ("Tad", "TransferTad", "Check")):
+    if any(m in modules for m in ("Tad", "TransferTad", "Check", "PruneStates")):
         imports += ["CR.Extracted.Tad"]
         tad = mods["tad"]
         # argument lists follow the emitted signatures (the pseudo parameters depend on what each method reads)
